@@ -107,35 +107,173 @@ theorem readSegs_mono' (cd : Codec) (h : Hdr) (k : Nat) : ∀ (f : Nat) (nb : Bo
   | zero => intro f nb ts r hr; simpa using hr
   | succ k ih => intro f nb ts r hr; exact readSegs_mono cd h (f + k) nb ts r (ih f nb ts r hr)
 
+/-! ## the two passes of `READ_BOUNDS_FIRST` step over a non-`b` segment like the main loop does -/
+
+theorem readUntilB_step (cd : Codec) (h : Hdr) {t : Tag} (ht : t ≠ .segb) {ts ts' : List Tok} {l : List Ev}
+    (hs : readSeg cd h t ts = .ok (l, ts')) (f : Nat) :
+    readUntilB cd h (f + 1) (.ch t :: ts) = readUntilB cd h f ts' := by
+  cases t <;> first | exact absurd rfl ht | (simp only [readUntilB, hs])
+
+theorem readSkipB_step (cd : Codec) (h : Hdr) {t : Tag} (ht : t ≠ .segb) {ts ts' : List Tok} {l : List Ev}
+    (hs : readSeg cd h t ts = .ok (l, ts')) (f : Nat) (aft : Option (List Tok)) :
+    readSkipB cd h (f + 1) aft (.ch t :: ts) =
+      (match readSkipB cd h f aft ts' with
+       | .error e => .error e
+       | .ok r => .ok (l ++ r)) := by
+  cases t <;> first | exact absurd rfl ht | (simp only [readSkipB, hs]; try rfl)
+
+theorem readUntilB_mono (cd : Codec) (h : Hdr) : ∀ (f : Nat) (ts : List Tok) (r : List Ev × List Tok),
+    readUntilB cd h f ts = .ok r → readUntilB cd h (f + 1) ts = .ok r := by
+  intro f
+  induction f with
+  | zero => intro ts r hr; simp [readUntilB] at hr
+  | succ f ih =>
+    intro ts r hr
+    match ts with
+    | [] => simp [readUntilB] at hr
+    | .ch t :: ts =>
+      by_cases ht : t = .segb
+      · subst ht; simpa [readUntilB] using hr
+      · cases hs : readSeg cd h t ts with
+        | error e =>
+          have := hr
+          cases t <;> first | exact absurd rfl ht | simp [readUntilB, hs] at this
+        | ok p =>
+          obtain ⟨l, ts'⟩ := p
+          rw [readUntilB_step cd h ht hs] at hr ⊢
+          exact ih _ _ hr
+    | .bt _ :: _ => simp [readUntilB] at hr
+    | .int _ :: _ => simp [readUntilB] at hr
+    | .dbl _ :: _ => simp [readUntilB] at hr
+    | .sh _ :: _ => simp [readUntilB] at hr
+    | .lg _ :: _ => simp [readUntilB] at hr
+    | .name _ :: _ => simp [readUntilB] at hr
+    | .holl _ :: _ => simp [readUntilB] at hr
+    | .vbt _ :: _ => simp [readUntilB] at hr
+    | .cmt _ :: _ => simp [readUntilB] at hr
+    | .eol :: _ => simp [readUntilB] at hr
+
+theorem readUntilB_mono' (cd : Codec) (h : Hdr) (k : Nat) : ∀ (f : Nat) (ts : List Tok) (r : List Ev × List Tok),
+    readUntilB cd h f ts = .ok r → readUntilB cd h (f + k) ts = .ok r := by
+  induction k with
+  | zero => intro f ts r hr; simpa using hr
+  | succ k ih => intro f ts r hr; exact readUntilB_mono cd h (f + k) ts r (ih f ts r hr)
+
+theorem readSkipB_mono (cd : Codec) (h : Hdr) : ∀ (f : Nat) (aft : Option (List Tok)) (ts : List Tok) (r : List Ev),
+    readSkipB cd h f aft ts = .ok r → readSkipB cd h (f + 1) aft ts = .ok r := by
+  intro f
+  induction f with
+  | zero => intro aft ts r hr; simp [readSkipB] at hr
+  | succ f ih =>
+    intro aft ts r hr
+    match ts with
+    | [] => simpa [readSkipB] using hr
+    | .ch t :: ts =>
+      by_cases ht : t = .segb
+      · subst ht
+        cases aft with
+        | none => simp [readSkipB] at hr
+        | some a =>
+          simp only [readSkipB] at hr ⊢
+          exact ih _ _ _ hr
+      · cases hs : readSeg cd h t ts with
+        | error e =>
+          have := hr
+          cases t <;> first | exact absurd rfl ht | simp [readSkipB, hs] at this
+        | ok p =>
+          obtain ⟨l, ts'⟩ := p
+          rw [readSkipB_step cd h ht hs] at hr ⊢
+          split at hr
+          · simp at hr
+          · rename_i r' hr'
+            rw [ih _ _ _ hr']
+            simpa using hr
+    | .bt _ :: _ => simp [readSkipB] at hr
+    | .int _ :: _ => simp [readSkipB] at hr
+    | .dbl _ :: _ => simp [readSkipB] at hr
+    | .sh _ :: _ => simp [readSkipB] at hr
+    | .lg _ :: _ => simp [readSkipB] at hr
+    | .name _ :: _ => simp [readSkipB] at hr
+    | .holl _ :: _ => simp [readSkipB] at hr
+    | .vbt _ :: _ => simp [readSkipB] at hr
+    | .cmt _ :: _ => simp [readSkipB] at hr
+    | .eol :: _ => simp [readSkipB] at hr
+
+theorem readSkipB_mono' (cd : Codec) (h : Hdr) (k : Nat) : ∀ (f : Nat) (aft : Option (List Tok)) (ts : List Tok) (r : List Ev),
+    readSkipB cd h f aft ts = .ok r → readSkipB cd h (f + k) aft ts = .ok r := by
+  induction k with
+  | zero => intro f aft ts r hr; simpa using hr
+  | succ k ih => intro f aft ts r hr; exact readSkipB_mono cd h (f + k) aft ts r (ih f aft ts r hr)
+
 /-- `Reads n nb nb' toks evs`: the segment loop, started with `read_bounds = nb` in front of `toks ++ rest`, delivers
     `evs`, leaves `read_bounds = nb'` and continues with `rest`; the fuel it needs beyond what `rest` needs is at most
-    the number of tokens consumed.  (`n` is only a label: the number of segments.) -/
+    the number of tokens consumed.  (`n` is only a label: the number of segments.)  For chunks without a `b` segment
+    (`nb = nb'`) the same holds for the two passes of `READ_BOUNDS_FIRST`: the first pass steps over the chunk silently, the
+    second delivers `evs`. -/
 def Reads (cd : Codec) (h : Hdr) (_n : Nat) (nb nb' : Bool) (toks : List Tok) (evs : List Ev) : Prop :=
-  ∀ (f : Nat) (rest : List Tok) (r : List Ev),
+  (∀ (f : Nat) (rest : List Tok) (r : List Ev),
     readSegs cd h f nb' rest = .ok r →
-      ∃ g, g ≤ f + toks.length ∧ readSegs cd h g nb (toks ++ rest) = .ok (evs ++ r)
+      ∃ g, g ≤ f + toks.length ∧ readSegs cd h g nb (toks ++ rest) = .ok (evs ++ r)) ∧
+  (nb = nb' ∨ (nb = true ∧ nb' = false)) ∧
+  (nb = nb' →
+    (∀ (f : Nat) (rest : List Tok) (r : List Ev × List Tok), readUntilB cd h f rest = .ok r →
+      ∃ g, g ≤ f + toks.length ∧ readUntilB cd h g (toks ++ rest) = .ok r) ∧
+    (∀ (f : Nat) (aft : Option (List Tok)) (rest : List Tok) (r : List Ev), readSkipB cd h f aft rest = .ok r →
+      ∃ g, g ≤ f + toks.length ∧ readSkipB cd h g aft (toks ++ rest) = .ok (evs ++ r)))
 
 theorem Reads.nil (cd : Codec) (h : Hdr) (nb : Bool) : Reads cd h 0 nb nb [] [] := by
-  intro f rest r hr; exact ⟨f, by simp, by simpa using hr⟩
+  refine ⟨?_, Or.inl rfl, fun _ => ⟨?_, ?_⟩⟩
+  · intro f rest r hr; exact ⟨f, by simp, by simpa using hr⟩
+  · intro f rest r hr; exact ⟨f, by simp, by simpa using hr⟩
+  · intro f aft rest r hr; exact ⟨f, by simp, by simpa using hr⟩
 
 theorem Reads.append {cd : Codec} {h : Hdr} {n1 n2 : Nat} {b1 b2 b3 : Bool} {t1 t2 : List Tok} {e1 e2 : List Ev}
     (h1 : Reads cd h n1 b1 b2 t1 e1) (h2 : Reads cd h n2 b2 b3 t2 e2) :
     Reads cd h (n2 + n1) b1 b3 (t1 ++ t2) (e1 ++ e2) := by
-  intro f rest r hr
-  obtain ⟨g2, hg2, a⟩ := h2 f rest r hr
-  obtain ⟨g1, hg1, b⟩ := h1 g2 (t2 ++ rest) (e2 ++ r) a
-  refine ⟨g1, by simp; omega, ?_⟩
-  simpa [List.append_assoc] using b
+  refine ⟨?_, ?_, ?_⟩
+  · intro f rest r hr
+    obtain ⟨g2, hg2, a⟩ := h2.1 f rest r hr
+    obtain ⟨g1, hg1, b⟩ := h1.1 g2 (t2 ++ rest) (e2 ++ r) a
+    refine ⟨g1, by simp; omega, ?_⟩
+    simpa [List.append_assoc] using b
+  · have a := h1.2.1; have b := h2.2.1
+    cases b1 <;> cases b2 <;> cases b3 <;> simp_all
+  · intro hb
+    have a := h1.2.1; have b := h2.2.1
+    have e12 : b1 = b2 := by cases b1 <;> cases b2 <;> cases b3 <;> simp_all
+    have e23 : b2 = b3 := by cases b1 <;> cases b2 <;> cases b3 <;> simp_all
+    obtain ⟨u1, k1⟩ := h1.2.2 e12
+    obtain ⟨u2, k2⟩ := h2.2.2 e23
+    refine ⟨?_, ?_⟩
+    · intro f rest r hr
+      obtain ⟨g2, hg2, a⟩ := u2 f rest r hr
+      obtain ⟨g1, hg1, b⟩ := u1 g2 (t2 ++ rest) r a
+      refine ⟨g1, by simp; omega, ?_⟩
+      simpa [List.append_assoc] using b
+    · intro f aft rest r hr
+      obtain ⟨g2, hg2, a⟩ := k2 f aft rest r hr
+      obtain ⟨g1, hg1, b⟩ := k1 g2 aft (t2 ++ rest) (e2 ++ r) a
+      refine ⟨g1, by simp; omega, ?_⟩
+      simpa [List.append_assoc] using b
 
 /-- a single segment other than `b` -/
 theorem Reads.seg {cd : Codec} {h : Hdr} {t : Tag} (ht : t ≠ .segb) {body : List Tok} {l : List Ev}
     (hs : ∀ rest, readSeg cd h t (body ++ rest) = .ok (l, rest)) (nb : Bool) :
     Reads cd h 1 nb nb (.ch t :: body) l := by
-  intro f rest r hr
-  have := readSegs_step cd h ht (hs rest) f nb
-  refine ⟨f + 1, by simp, ?_⟩
-  simp only [List.cons_append]
-  rw [this, hr]
+  refine ⟨?_, Or.inl rfl, fun _ => ⟨?_, ?_⟩⟩
+  · intro f rest r hr
+    have := readSegs_step cd h ht (hs rest) f nb
+    refine ⟨f + 1, by simp, ?_⟩
+    simp only [List.cons_append]
+    rw [this, hr]
+  · intro f rest r hr
+    refine ⟨f + 1, by simp, ?_⟩
+    simp only [List.cons_append]
+    rw [readUntilB_step cd h ht (hs rest), hr]
+  · intro f aft rest r hr
+    refine ⟨f + 1, by simp, ?_⟩
+    simp only [List.cons_append]
+    rw [readSkipB_step cd h ht (hs rest), hr]
 
 theorem Reads.weaken {cd : Codec} {h : Hdr} {n : Nat} {b1 b2 : Bool} {t : List Tok} {e : List Ev} (k : Nat)
     (h1 : Reads cd h n b1 b2 t e) : Reads cd h (n + k) b1 b2 t e := h1
